@@ -23,6 +23,9 @@ class Contract:
         self.types = kw.pop("types", {})
         self.returns = kw.pop("returns", None)
         self.requires = _labelled(kw.pop("requires", []), "pre")
+        # assumes: facts taken for granted at entry *and* at call sites (never obligations); each must be justified by a
+        # mechanical side check named in its label and is listed in the evidence as an assumption
+        self.assumes = _labelled(kw.pop("assumes", []), "assume")
         self.ensures = _labelled(kw.pop("ensures", []), "post")
         self.modifies = kw.pop("modifies", [])
         # raises: None = may not raise at all (noraise); otherwise list of dicts
